@@ -428,6 +428,18 @@ pub fn cwd_configs(root: &std::path::Path) -> Vec<Config> {
             out.push(Config { name: name.into(), layout: world::sign_layout(lay, &[owner]), owners: world::owner_map(&[owner]), dir: dir.clone(), ambiguous: false });
         }
     }
+    // (xvi) verification repeated in the SAME working directory (not emptied in between): two
+    // inspections, the later one requiring the link file the earlier one leaves behind. The first
+    // run meets an empty directory, every later run the files of the run before; for this layout
+    // that changes nothing a rule looks at, so every repetition must give the verdict of the first.
+    {
+        let dir = root.join("xvi");
+        std::fs::create_dir_all(&dir).unwrap();
+        let scan = Inspection::new("scan").run(vec!["true".to_string()].into());
+        let audit = Inspection::new("audit").run(vec!["true".to_string()].into()).add_expected_material(ArtifactRule::Require(world::vpath("scan.link")));
+        let lay = world::layout(vec![], vec![scan, audit], &[], world::far_future());
+        out.push(Config { name: "xvi:keep-cwd:later-inspection-requires-the-earlier-link".into(), layout: world::sign_layout(lay, &[owner]), owners: world::owner_map(&[owner]), dir, ambiguous: false });
+    }
     out
 }
 
@@ -441,7 +453,8 @@ pub fn worker_case(case: &Value, dir: &std::path::Path) -> Value {
     let idx = case["config"].as_u64().unwrap_or(0) as usize;
     let Some(cfg) = cfgs.get(idx) else { return json!({"machinery_error": "no such configuration"}) };
     std::env::set_current_dir(&cwd).unwrap();
-    CLEAN_CWD.with(|c| c.set(true));
+    // configurations named keep-cwd are repeated in the directory as the previous run left it
+    CLEAN_CWD.with(|c| c.set(!cfg.name.contains("keep-cwd")));
     REPETITIONS.store(case["repetitions"].as_u64().unwrap_or(12) as usize, std::sync::atomic::Ordering::Relaxed);
     let mut acc = Acc::new();
     let (outs, stats) = run_config(cfg, 99, 20_000, &mut acc);
@@ -546,6 +559,14 @@ pub fn run_config(
         // there is, hence more repetitions.
         let mut seen: BTreeSet<String> = BTreeSet::new();
         let mut firstv: Option<Verdict> = None;
+        // the first execution of the exploration ran the default schedule too: it is repetition
+        // number zero (in a directory that is not emptied it is the only one that met it empty)
+        if let Some((script, v)) = &first {
+            if script.iter().all(|x| *x == 0) {
+                seen.insert(obs_of(v));
+                firstv = Some(v.clone());
+            }
+        }
         let reps = if cfg!(in_toto_verif_nosites) { 96 } else { REPETITIONS.load(std::sync::atomic::Ordering::Relaxed) };
         for _ in 0..reps {
             if CLEAN_CWD.with(|c| c.get()) {
@@ -555,7 +576,7 @@ pub fn run_config(
             local.evaluations += 1;
             if seen.insert(obs_of(&v)) && seen.len() == 2 {
                 local.violation(
-                    "order-dependent:unowned-iteration-order(sampled)",
+                    if cfg.name.contains("keep-cwd") { "depends-on-files-left-by-the-previous-verification" } else { "order-dependent:unowned-iteration-order(sampled)" },
                     "repeating verification on the same inputs and the same owned iteration orders gives different outcomes (found by repetition)",
                     || json!({"config": cfg.name, "outcome_a": firstv.as_ref().map(|f| f.to_json()), "outcome_b": v.to_json()}),
                 );
